@@ -450,39 +450,7 @@ func runC11(p *eng.Prog, r *eng.Report, tier string) {
 			}
 		}
 	}
-	c11EncodersEmitString(c, "C11.7") {
-		f := c.fn("C11.7", "jid", name)
-		if f != nil {
-			c.r.Check("C11.7", f, "encodes String()", "P: XML encoding emits String()", f.Pos(), len(f.Calls("jid.JID.String")) == 1, "no call of String")
-			// ... and emits it as it is: the encoder escapes attribute values and
-			// character data itself, an escaped or otherwise rewritten copy does
-			// not come back as the same address
-			g := f.Graph()
-			nv := 0
-			for _, cl := range f.WalkLits("encoding/xml.Attr") {
-				v := structLitField(cl, "Value")
-				if v == nil {
-					continue
-				}
-				nv++
-				pt, _ := g.Where(cl)
-				c.r.Check("C11.7", f, "attribute value emitted", "P: the attribute value is String() itself", cl.Pos(), f.Norm(v, &pt) == "jid.JID.String[recv]()", "value is "+f.Norm(v, &pt))
-			}
-			f.WalkBody(func(nd ast.Node) bool {
-				cl, ok := nd.(*ast.CallExpr)
-				if !ok || len(cl.Args) != 1 {
-					return true
-				}
-				if tv, ok := f.Info().Types[cl.Fun]; ok && tv.IsType() && eng.TypeStr(tv.Type) == "encoding/xml.CharData" {
-					nv++
-					pt, _ := g.Where(cl)
-					c.r.Check("C11.7", f, "character data emitted", "P: the character data is String() itself", cl.Pos(), f.Norm(cl.Args[0], &pt) == "jid.JID.String[recv]()", "text is "+f.Norm(cl.Args[0], &pt))
-				}
-				return true
-			})
-			c.r.Floor("C11.7", "emitted values in "+name, nv, 1)
-		}
-	}
+	c11EncodersEmitString(c, "C11.7")
 	// ---- C11.4b the canonical domainpart has no trailing label separator ----------------
 	// UTS #46 mapping turns U+3002/U+FF0E/U+FF61 into '.', and the Display
 	// profile accepts empty labels: a dot stripped only BEFORE the mapping can
@@ -1257,5 +1225,37 @@ func c11IPLiteralsVerbatim(c *cx, id string) {
 // path that emits the raw data drops the separator of a domain/resource
 // address: the to / from / by attributes of a stanza no longer round-trip).
 func c11EncodersEmitString(c *cx, id string) {
-	for _, name := range []string{"JID.MarshalXML", "JID.MarshalXMLAttr"}
+	for _, name := range []string{"JID.MarshalXML", "JID.MarshalXMLAttr"} {
+		f := c.fn(id, "jid", name)
+		if f != nil {
+			c.r.Check(id, f, "encodes String()", "P: XML encoding emits String()", f.Pos(), len(f.Calls("jid.JID.String")) == 1, "no call of String")
+			// ... and emits it as it is: the encoder escapes attribute values and
+			// character data itself, an escaped or otherwise rewritten copy does
+			// not come back as the same address
+			g := f.Graph()
+			nv := 0
+			for _, cl := range f.WalkLits("encoding/xml.Attr") {
+				v := structLitField(cl, "Value")
+				if v == nil {
+					continue
+				}
+				nv++
+				pt, _ := g.Where(cl)
+				c.r.Check(id, f, "attribute value emitted", "P: the attribute value is String() itself", cl.Pos(), f.Norm(v, &pt) == "jid.JID.String[recv]()", "value is "+f.Norm(v, &pt))
+			}
+			f.WalkBody(func(nd ast.Node) bool {
+				cl, ok := nd.(*ast.CallExpr)
+				if !ok || len(cl.Args) != 1 {
+					return true
+				}
+				if tv, ok := f.Info().Types[cl.Fun]; ok && tv.IsType() && eng.TypeStr(tv.Type) == "encoding/xml.CharData" {
+					nv++
+					pt, _ := g.Where(cl)
+					c.r.Check(id, f, "character data emitted", "P: the character data is String() itself", cl.Pos(), f.Norm(cl.Args[0], &pt) == "jid.JID.String[recv]()", "text is "+f.Norm(cl.Args[0], &pt))
+				}
+				return true
+			})
+			c.r.Floor(id, "emitted values in "+name, nv, 1)
+		}
+	}
 }
